@@ -1459,3 +1459,75 @@ func (g *G) MultiParent() (*rm.Model, []rm.Tuple, []Request) {
 	}
 	return m, tuples, reqs
 }
+
+// MutualUsersets is a directed shape: two or three relations on different types that are directly
+// assignable to each other's usersets (group#member: [user, team#member]; team#member: [user,
+// group#member]), stored as chains and cycles several hops long, and asked about with USERSET
+// subjects that sit one, two or more hops away as well as with plain users.
+func (g *G) MutualUsersets() (*rm.Model, []rm.Tuple, []Request) {
+	this := &rm.Rewrite{Kind: rm.This}
+	types := []string{"group", "team"}
+	if g.Chance(0.4) {
+		types = append(types, "org")
+	}
+	m := &rm.Model{Types: []*rm.TypeDef{{Name: "user"}}}
+	for i, t := range types {
+		res := []rm.Restriction{{Type: "user"}}
+		for j, o := range types {
+			if j != i || g.Chance(0.3) {
+				res = append(res, rm.Restriction{Type: o, Relation: "member"})
+			}
+		}
+		m.Types = append(m.Types, &rm.TypeDef{Name: t, Relations: []*rm.Relation{{Name: "member", Rewrite: this, Restrictions: res}}})
+	}
+	allowed := func(t, o string) bool {
+		for _, r := range m.Rel(t, "member").Restrictions {
+			if r.Type == o && r.Relation == "member" {
+				return true
+			}
+		}
+		return false
+	}
+	// a chain n0 <- n1 <- ... <- nk alternating types, the last node holding a user
+	k := 3 + g.Intn(4)
+	var nodes []string
+	for i := 0; i <= k; i++ {
+		nodes = append(nodes, fmt.Sprintf("%s:%d", types[i%len(types)], 1+i/len(types)))
+	}
+	var tuples []rm.Tuple
+	seen := map[string]bool{}
+	add := func(t rm.Tuple) {
+		if !seen[t.Key()] {
+			seen[t.Key()] = true
+			tuples = append(tuples, t)
+		}
+	}
+	for i := 0; i < k; i++ {
+		if allowed(rm.ObjType(nodes[i]), rm.ObjType(nodes[i+1])) {
+			add(rm.Tuple{Obj: nodes[i], Rel: "member", User: nodes[i+1] + "#member"})
+		}
+	}
+	u := "user:" + Pick(g, userIDs)
+	add(rm.Tuple{Obj: nodes[k], Rel: "member", User: u})
+	if g.Chance(0.5) && allowed(rm.ObjType(nodes[k]), rm.ObjType(nodes[0])) {
+		add(rm.Tuple{Obj: nodes[k], Rel: "member", User: nodes[0] + "#member"}) // close the cycle
+	}
+	for i := 0; i < 3; i++ {
+		a, b := Pick(g, nodes), Pick(g, nodes)
+		if a != b && allowed(rm.ObjType(a), rm.ObjType(b)) && g.Chance(0.5) {
+			add(rm.Tuple{Obj: a, Rel: "member", User: b + "#member"})
+		}
+	}
+	var reqs []Request
+	for i := 0; i < 12; i++ {
+		a := nodes[g.Intn(len(nodes))]
+		switch g.Intn(3) {
+		case 0:
+			reqs = append(reqs, Request{Kind: "check", Obj: a, Rel: "member", User: "user:" + Pick(g, userIDs)})
+		default:
+			b := nodes[g.Intn(len(nodes))]
+			reqs = append(reqs, Request{Kind: "check", Obj: a, Rel: "member", User: b + "#member"})
+		}
+	}
+	return m, tuples, reqs
+}
